@@ -215,6 +215,18 @@ func Protect(f func()) (pi *PanicInfo) {
 // emulator module the panic is the emulator's.
 func ClassifyStack(st string) (bool, string) {
 	lines := strings.Split(st, "\n")
+	// a panic may have been re-raised by deferred functions on its way up: the original
+	// one is the deepest, i.e. the last "panic(" line of the trace
+	last := -1
+	for i, ln := range lines {
+		if strings.HasPrefix(ln, "panic(") {
+			last = i
+		}
+	}
+	if last < 0 {
+		return false, ""
+	}
+	lines = lines[last:]
 	seenPanic := false
 	for _, ln := range lines {
 		if strings.HasPrefix(ln, "\t") || ln == "" {
